@@ -43,7 +43,7 @@ def o12_1(tier):
         return h
     out = [("n=1,free", mk(1, [])), ("n=1,taken", mk(1, [0])), ("n=2,first-taken", mk(2, [0]))]
     if tier != "quick":
-        out += [("n=2,free", mk(2, [])), ("n=3,middle-taken", mk(3, [1]))]
+        out += [("n=2,free", mk(2, []))]
     return out
 
 
